@@ -110,7 +110,10 @@ def run_tasks(tasks, timeout=60, nworkers=None, stub=False, hashseed="0", extra_
                     except Exception as e:
                         results[w.task] = {"outcome": "Crash", "detail": "bad json " + str(e)}
                     done += 1
+                    fresh = bool(tasks[w.task].get("fresh"))
                     w.task = None
+                    if fresh:
+                        w.kill(); w.start()
                     if progress and done % progress == 0:
                         print("  ... %d/%d implementation runs" % (done, n), flush=True)
                 elif now - w.t0 > float(tasks[w.task].get("timeout", timeout)):
